@@ -1,7 +1,7 @@
 // Hook H3 (ipa-core/src/protocol/context/mod.rs): Batcher / BatchState are pub(super) in
 // context::batcher.
 
-#[cfg(not(feature = "shuttle"))]
+#[cfg(all(not(feature = "shuttle"), feature = "descriptive-gate"))]
 mod c16 {
     include!(concat!(env!("IPA_VERIF_DIR"), "/c16.rs"));
 }
